@@ -330,6 +330,53 @@ func reachingDef(v ssa.Value) ssa.Value {
 	return v
 }
 
+// reachingStoreVals: the values that the load of a local variable cell can see: the last store to the cell on every
+// path into the load (block-granular backward search). ok is false when the cell is written outside the function, or a
+// path reaches the load from the function entry without any store.
+func reachingStoreVals(ld *ssa.UnOp) (vals []ssa.Value, ok bool) {
+	al, isAl := ld.X.(*ssa.Alloc)
+	if !isAl || ld.Op != token.MUL || ld.Block() == nil {
+		return nil, false
+	}
+	for _, st := range cellStores(al) {
+		if st.Parent() != ld.Parent() {
+			return nil, false
+		}
+	}
+	lastStore := func(b *ssa.BasicBlock, before int) *ssa.Store {
+		for i := before - 1; i >= 0; i-- {
+			if st, isSt := b.Instrs[i].(*ssa.Store); isSt && st.Addr == ssa.Value(al) {
+				return st
+			}
+		}
+		return nil
+	}
+	if st := lastStore(ld.Block(), instrIndex(ld)); st != nil {
+		return []ssa.Value{st.Val}, true
+	}
+	seen := map[*ssa.BasicBlock]bool{}
+	ok = true
+	var walk func(b *ssa.BasicBlock)
+	walk = func(b *ssa.BasicBlock) {
+		if len(b.Preds) == 0 {
+			ok = false
+		}
+		for _, p := range b.Preds {
+			if seen[p] {
+				continue
+			}
+			seen[p] = true
+			if st := lastStore(p, len(p.Instrs)); st != nil {
+				vals = append(vals, st.Val)
+				continue
+			}
+			walk(p)
+		}
+	}
+	walk(ld.Block())
+	return vals, ok
+}
+
 // holdsValue: v is target itself, or a load of a local variable that was assigned target with no other assignment to the
 // variable on any path from that assignment to the load.
 func holdsValue(v, target ssa.Value) bool {
